@@ -32,6 +32,56 @@ fn text(c: &CollCase, upto: usize) -> String {
     s
 }
 
+/// top-level elements of a canonical list "(a b (c d) s:\"x y\")"
+fn split_list(s: &str) -> Vec<String> {
+    let inner = match s.strip_prefix('(').and_then(|x| x.strip_suffix(')')) {
+        Some(x) => x,
+        None => return vec![],
+    };
+    let mut out = vec![];
+    let mut cur = String::new();
+    let mut depth = 0i32;
+    let mut in_str = false;
+    let mut esc = false;
+    for ch in inner.chars() {
+        if in_str {
+            cur.push(ch);
+            if esc {
+                esc = false;
+            } else if ch == '\\' {
+                esc = true;
+            } else if ch == '"' {
+                in_str = false;
+            }
+            continue;
+        }
+        match ch {
+            '"' => {
+                in_str = true;
+                cur.push(ch)
+            }
+            '(' | '{' => {
+                depth += 1;
+                cur.push(ch)
+            }
+            ')' | '}' => {
+                depth -= 1;
+                cur.push(ch)
+            }
+            ' ' if depth == 0 => {
+                if !cur.is_empty() {
+                    out.push(std::mem::take(&mut cur));
+                }
+            }
+            _ => cur.push(ch),
+        }
+    }
+    if !cur.is_empty() {
+        out.push(cur);
+    }
+    out
+}
+
 fn last_value(st: &StepResult) -> String {
     st.values.iter().rev().find(|v| *v != "#void").cloned().unwrap_or_default()
 }
@@ -119,6 +169,20 @@ pub fn check(ctx: &Ctx, ws: &mut Workers, c: &CollCase, counting: bool, tag: &st
                 Mode::Persistence => {
                     if observe {
                         return Err(mk("old-value-changed", &p.what, i, msg));
+                    }
+                    // components of the result that are earlier values
+                    if st.outcome == Outcome::Ok && !p.unchanged.is_empty() {
+                        let parts = split_list(&got);
+                        for (idx, want) in &p.unchanged {
+                            if parts.get(*idx).map(|x| x != want).unwrap_or(true) {
+                                return Err(mk(
+                                    "old-value-changed",
+                                    &p.what,
+                                    i,
+                                    format!("{}\ncomponent {} of the result is an earlier value, expected unchanged: {}\nobserved: {}", msg, idx, want, parts.get(*idx).cloned().unwrap_or_default()),
+                                ));
+                            }
+                        }
                     }
                     match fresh_copy_agrees(ws, &cfg, p) {
                         // the operation is right on a fresh copy and wrong on the shared value
